@@ -5,7 +5,8 @@ every run (`Gen/FnBuilder.lean`; the `match` on constant attribute types with it
 if-chain) and equal the model functions `C11.add_refused_iff` & co. are about.  The contract panics of
 `add_attribute`/`add_raw_attribute` (types MI, MI-SHA256, FINGERPRINT: "use add_message_integrity()") are
 outside C11's operation alphabet; the translator checks that exactly that one contract check is present and
-assumes it.  `add_fingerprint` is translated up to its call of `add_fingerprint_unchecked` (a parameter).
+assumes it.  `add_fingerprint` is translated up to its call of `add_fingerprint_unchecked` (a parameter), and so is
+`add_message_integrity`; the unchecked steps and `integrity_bytes_from_message` are translated separately and composed below.
 -/
 import StunVerif.Gen.FnBuilder
 namespace StunVerif.SrcFnBuilder
@@ -49,5 +50,82 @@ theorem src_addFingerprint (f : Builder → Builder) (b : Builder) :
 theorem model_addFingerprint_refused (b : Builder) (h : b.hasAttribute tyFP = true) :
     b.addFingerprint = .error (.attributeExists tyFP) := by
   simp [Builder.addFingerprint, h]
+
+/-! ### sealing: `add_message_integrity`, `integrity_bytes_from_message`, `add_message_integrity_unchecked`,
+`add_fingerprint_unchecked` (C03, C04, C09, C11) -/
+
+/-- the types the guard of `add_message_integrity` looks for, as the source assembles them in its three-slot array -/
+theorem src_addMessageIntegrity_guard (f : Builder → Builder) (b : Builder) (algo : Algo) :
+    Gen.addMessageIntegrity f b algo =
+      (match b.hasAnyAttribute (match algo with | .sha1 => [tyMI, tyMI256, tyFP] | .sha256 => [tyMI256, tyFP]) with
+       | some t =>
+         if t = tyMI then .error (.attributeExists tyMI)
+         else if t = tyMI256 then .error (.attributeExists tyMI256)
+         else .error .fingerprintExists
+       | none => .ok (f b)) := by
+  unfold Gen.addMessageIntegrity
+  cases algo
+  · simp only [src_hasAnyAttribute, if_true]
+    have : List.take (0 + 1 + 1 + 1) (((List.replicate 3 0).set 0 tyMI).set (0 + 1) tyMI256 |>.set (0 + 1 + 1) tyFP)
+        = [tyMI, tyMI256, tyFP] := by decide
+    simp only [this]
+    cases h : b.hasAnyAttribute [tyMI, tyMI256, tyFP] with
+    | none => rfl
+    | some t =>
+      have hm := List.find?_some h
+      simp only [List.contains_cons, List.contains_nil, Bool.or_false, Bool.or_eq_true, beq_iff_eq] at hm
+      rcases hm with rfl | rfl | rfl <;> simp [tyMI, tyMI256, tyFP]
+  · have hne : ¬ (Algo.sha256 = Algo.sha1) := by decide
+    simp only [src_hasAnyAttribute, hne, if_false]
+    have : List.take (0 + 1 + 1) (((List.replicate 3 0).set 0 tyMI256).set (0 + 1) tyFP) = [tyMI256, tyFP] := by decide
+    simp only [this]
+    cases h : b.hasAnyAttribute [tyMI256, tyFP] with
+    | none => rfl
+    | some t =>
+      have hm := List.find?_some h
+      simp only [List.contains_cons, List.contains_nil, Bool.or_false, Bool.or_eq_true, beq_iff_eq] at hm
+      rcases hm with rfl | rfl <;> simp [tyMI, tyMI256, tyFP]
+
+/-- `integrity_bytes_from_message` below the 16-bit limit (at or beyond it the `u16` addition panics under overflow
+    checks — the model's `none`) -/
+theorem src_integrityBytes (b : Builder) (extra : Nat)
+    (h : beNat ((b.build.drop 2).take 2) + extra < 65536) :
+    b.bytesWithExtraLen extra = some (Gen.integrityBytesFromMessage b extra) := by
+  unfold Builder.bytesWithExtraLen Gen.integrityBytesFromMessage
+  have : ¬ (beNat ((b.build.drop 2).take 2) + extra ≥ 65536) := by omega
+  simp [this]
+
+/-- the whole of `add_message_integrity` (guard, key, the 24/36 bytes by which the length field is raised, which HMAC,
+    the attribute and type pushed) is the model's `addIntegrity` whenever the sealed message stays within 16 bits -/
+theorem src_addMessageIntegrity (H : Hashes) (c : Creds) (b : Builder) (algo : Algo)
+    (h : beNat ((b.build.drop 2).take 2) + (match algo with | .sha1 => 24 | .sha256 => 36) < 65536) :
+    Gen.addMessageIntegrity (fun b => Gen.addMessageIntegrityUnchecked H c b algo) b algo = b.addIntegrity H c algo := by
+  rw [src_addMessageIntegrity_guard]
+  unfold Builder.addIntegrity
+  cases algo
+  · simp only
+    cases b.hasAnyAttribute [tyMI, tyMI256, tyFP] with
+    | some t => rfl
+    | none =>
+      simp only [src_integrityBytes b 24 h, Gen.addMessageIntegrityUnchecked]
+  · simp only
+    cases b.hasAnyAttribute [tyMI256, tyFP] with
+    | some t => rfl
+    | none =>
+      simp only [src_integrityBytes b 36 h, Gen.addMessageIntegrityUnchecked]
+
+/-- `add_fingerprint` with its unchecked step: the model's `addFingerprint` (length field raised by 8, CRC of those bytes) -/
+theorem src_addFingerprint_full (b : Builder) (h : beNat ((b.build.drop 2).take 2) + 8 < 65536) :
+    Gen.addFingerprint Gen.addFingerprintUnchecked b = b.addFingerprint := by
+  rw [src_addFingerprint]
+  unfold Builder.addFingerprint
+  have hb := src_integrityBytes b 8 h
+  unfold Gen.integrityBytesFromMessage at hb
+  by_cases hf : b.hasAttribute tyFP = true
+  · simp [hf]
+  · simp only [hf, hb, Gen.addFingerprintUnchecked]
+
+/-- non-vacuity of the size hypothesis: a fresh Binding request is far below the limit -/
+example : beNat (((Builder.new 1 0).build.drop 2).take 2) + 36 < 65536 := by decide
 
 end StunVerif.SrcFnBuilder
